@@ -64,6 +64,8 @@ const (
 	GReimportWhileOut = "g:export_import_while_a_validator_with_module_stake_is_out_and_emptied"
 	GRecreateAsset    = "g:asset_with_reward_history_drained_deleted_and_whitelisted_again_with_a_warm_up"
 	GUpdateThenDecay  = "g:governance_update_repeating_the_stored_weight_then_a_scheduled_weight_change"
+	GFanInSlash       = "g:one_delegator_redelegates_from_two_sources_into_one_destination_in_one_block_then_a_source_is_slashed"
+	GIntoSlashed      = "g:stake_moved_into_a_validator_whose_positions_were_slashed_to_almost_nothing"
 )
 
 const (
@@ -78,7 +80,7 @@ func baseProfile() Profile {
 		Weights: map[string]int{
 			KDelegate: 22, KUndelegate: 14, KRedelegate: 10, KClaim: 6, KBlock: 22, KSlashHook: 3, KSlash: 4,
 			KDonate: 2, KNatDel: 2, KNatUndel: 2, KJail: 1, KUnjail: 1, KUpdate: 2, KUnbTime: 1, KCreate: 1, KDelete: 1,
-			GDrainAsset: 2, GShareFraction: 2, KReimport: 2, GRedelThenExit: 2,
+			GDrainAsset: 2, GShareFraction: 2, KReimport: 2, GRedelThenExit: 2, GIntoSlashed: 2,
 		},
 		MinSteps: 4, MaxSteps: 40,
 		UnbTimes:   []int64{ns, sec, 3600 * sec, 21 * day},
@@ -747,6 +749,70 @@ func (g *Gen) Step() {
 		} else {
 			p := new(big.Int).Quo(x.Post().Vals[a].Tokens.BigInt(), big.NewInt(1_000_000)).Int64()
 			x.Apply(Op{K: KSlash, V: a, Frac: g.frac(), Power: p, Age: int64(g.intn("age", 2))})
+		}
+	case GFanInSlash:
+		// one delegator holds the asset on a and b and moves both into c within one block (one merged
+		// record, two per-source index entries); another delegator sits on c; then the first or the
+		// second source is slashed, or the block runs to maturity
+		dn := g.anyDenom("denom")
+		D := g.del()
+		a := g.intn("fi-a", nv)
+		b := (a + 1 + g.intn("fi-b", nv-1)) % nv
+		c := a
+		for c == a || c == b {
+			c = g.intn("fi-c", nv)
+		}
+		for _, v := range []int{a, b} {
+			if _, ok := x.Post().FindDel(D, v, dn); !ok {
+				x.Apply(Op{K: KDelegate, D: D, V: v, Denom: dn, Amt: g.freshAmount("amt")})
+			}
+		}
+		if g.pct("fi-bystander", 70) {
+			x.Apply(Op{K: KDelegate, D: (D + 1) % NumDels, V: c, Denom: dn, Amt: g.freshAmount("amt")})
+		}
+		for _, v := range []int{a, b} {
+			cur := x.Post()
+			if pos, ok := cur.FindDel(D, v, dn); ok {
+				if bal := cur.Reported(pos); bal.Sign() > 0 {
+					x.Apply(Op{K: KRedelegate, D: D, V: v, W: c, Denom: dn, Amt: g.amount("ramt", bal, false)})
+				}
+			}
+		}
+		switch g.intn("fi-then", 4) {
+		case 0:
+			x.Apply(Op{K: KSlashHook, V: a, Frac: g.frac()})
+		case 1, 2:
+			x.Apply(Op{K: KSlashHook, V: b, Frac: g.frac()})
+		default:
+			x.Apply(Op{K: KBlock, Dt: int64(x.Post().UnbondingTime) + 1, Fees: g.fees()})
+			x.Apply(Op{K: KBlock, Dt: sec})
+		}
+	case GIntoSlashed:
+		// a position on validator b is slashed to (almost) nothing — its shares stay; then somebody
+		// else moves or delegates stake into b
+		dn := g.anyDenom("denom")
+		b := g.intn("is-b", nv)
+		a := (b + 1 + g.intn("is-a", nv-1)) % nv
+		D := g.del()
+		E := (D + 1 + g.intn("is-e", NumDels-1)) % NumDels
+		small := new(big.Int).Mul(big.NewInt(int64(g.intn("is-m", 9)+1)), pow10(2+g.intn("is-k", 6)))
+		x.Apply(Op{K: KDelegate, D: D, V: b, Denom: dn, Amt: small.String()})
+		x.Apply(Op{K: KDelegate, D: E, V: a, Denom: dn, Amt: new(big.Int).Mul(small, big.NewInt(int64(1+g.intn("is-times", 20)))).String()})
+		x.Apply(Op{K: KSlashHook, V: b, Frac: g.pickS("is-frac", []string{"0.99999975", "0.999999999", "0.9999", "0.99", "1"})})
+		cur := x.Post()
+		if pos, ok := cur.FindDel(E, a, dn); ok {
+			bal := cur.Reported(pos)
+			if bal.Sign() > 0 {
+				amt := new(big.Int).Quo(bal, big.NewInt(int64(1+g.intn("is-div", 3))))
+				if amt.Sign() == 0 {
+					amt = bal
+				}
+				if g.pct("is-redelegate", 65) {
+					x.Apply(Op{K: KRedelegate, D: E, V: a, W: b, Denom: dn, Amt: amt.String()})
+				} else {
+					x.Apply(Op{K: KDelegate, D: E, V: b, Denom: dn, Amt: amt.String()})
+				}
+			}
 		}
 	case GUpdateThenDecay:
 		// an update that repeats the stored weight (so "nothing changes") but carries another range
